@@ -402,7 +402,14 @@ class CFG:
             i = work.pop(0)
             inwork.discard(i)
             acc = {}
-            for p in self.pred[i]:
+            plist = list(self.pred[i])
+            if forward_only:
+                # a definition in a loop body reaches the code AFTER the loop without "going round" in the sense that
+                # matters (it is not loop-carried there): route back-edge sources to the loop's exit successors
+                for h in self.pred[i]:
+                    if self.edge_label.get((h, i)) == "F":
+                        plist += [src for (src, dst) in self.back_edges if dst == h]
+            for p in plist:
                 if p not in allowed:
                     continue
                 if forward_only and (p, i) in self.back_edges:
@@ -415,7 +422,12 @@ class CFG:
                 out[name] = frozenset([i])
             if out != OUT[i]:
                 OUT[i] = out
-                for s in self.succ[i]:
+                nxt = list(self.succ[i])
+                if forward_only:
+                    for (src, dst) in self.back_edges:
+                        if src == i:
+                            nxt += [x for x in self.succ[dst] if self.edge_label.get((dst, x)) == "F"]
+                for s in nxt:
                     if s in allowed and s not in inwork:
                         work.append(s)
                         inwork.add(s)
